@@ -48,6 +48,66 @@ TABLE = {
         "Generated-input exploration of all mode combinations on success and failure paths (empty, delimiter-free, unknown, arbitrary Unicode): default never raises, passthrough returns input, strict raises only library errors.",
         "Mode relation only; the values are pinned by C01/C02/C06.",
     ),
+    "C09": (
+        "Hypothesis property test: chain vs. a reference fold of the documented add_record(merge=True) rule plus set-level laws; get_subconverter vs. an exact restriction model",
+        "Generated-input exploration over 1-4 overlapping converters (shared prefixes, synonym-only and case-only overlap, bridges) in both case modes: ValueError iff the model fold meets a bridge, union / co-membership / priority laws, exact records, C04/C05 consistency of the result; restriction laws for get_subconverter.",
+        "Trusts pbt/model.py:add_record; default delimiter only (neither function propagates one).",
+    ),
+    "C10": (
+        "Hypothesis rule-based state machine over a pool of converters with deep observation snapshots; invariant 'every input equals its snapshot' after each derivation / follow-up mutation",
+        "Stateful generated exploration of chain, get_subconverter, remap_curie_prefixes, remap_uri_prefixes, rewire, discover(converter=) and later add_prefix/add_record(merge=True) on derived converters; inputs are re-observed (records, views, five lookup tables, query answers) after every step, also when the derivation raises.",
+        "Observation is finite (records, views, lookups, answers on boundary probes); no model of what the derivations should produce (C09/C11/C12).",
+    ),
+    "C11": (
+        "Hypothesis property test: invariants from the statement for every outcome, justified-error check, and an exact sequential model when keys and values are disjoint",
+        "Generated-input exploration of remap_curie_prefixes over canonical / synonym / unknown keys with unused, own-synonym, foreign and chained targets (full chains, partially applicable chains, swaps): documented errors only and only when justified, record count and URI sides preserved, nothing lost or invented, applicable pairs applied, clashes skipped.",
+        "Trusts the invariants as transcribed from the statement; patterns not asserted.",
+    ),
+    "C12": (
+        "Hypothesis property test: exact per-record model for injective URI remappings / rewirings (tolerant where a record matches several keys), TransitiveError iff-clause, rewire idempotence",
+        "Generated-input exploration of remap_uri_prefixes and rewire over injective mappings built by construction, plus a non-injective arm for the TransitiveError clause.",
+        "Ownership of mapped values is judged on the original converter, as the statement words it.",
+    ),
+    "C13": (
+        "Hypothesis property tests per loader: expected record list derived from the input by the documented rule, behaviour vs. reference model, dictionary-order and str/Path/object metamorphic relations",
+        "Generated-input exploration of the seven loaders (prefix map, priority map, reverse map, EPM, JSON-LD with ignored terms, rdflib graphs/managers, upgrade_prefix_map) over small-alphabet and arbitrary Unicode strings, every input shuffled and every JSON input also loaded from a temp file by str and by Path.",
+        "Remote URLs cannot be loaded offline; rdflib's namespaces() is the oracle for from_rdflib.",
+    ),
+    "C14": (
+        "Hypothesis round-trip property tests per format (EPM, JSON-LD plain/expanded, SHACL via rdflib, TSV via csv) with the alphabets the statement allows",
+        "Generated-input exploration: write to a temp file, load back, compare records (EPM) or bimap / prefix_map / pattern_map (JSON-LD, SHACL, TSV), with and without synonyms, backslash-rich patterns and prefixes, arbitrary Unicode for EPM.",
+        "rdflib's Turtle parser and the csv module are trusted readers.",
+    ),
+    "C15": (
+        "Hypothesis property tests: round trips (from_curie, string validation, JSON, from_reference, triple files), equality/hash/order laws against plain tuples, immutability, converter-context standardisation vs. reference model",
+        "Generated-input exploration over the four reference classes with colliding pairs and differing names, identifiers containing separators / CSV-sensitive characters, converters as validation context, .tsv and .tsv.gz triple files.",
+        "Laws are checked on lists of up to 7 references; pydantic is trusted for model plumbing.",
+    ),
+    "C16": (
+        "Hypothesis differential test: bulk pandas / file operations vs. the scalar method cell by cell; fault injection (failing cell, short row, empty row at generated positions) with byte comparison for atomicity",
+        "Generated-input exploration of pd_compress / pd_expand / pd_standardize_* and file_compress / file_expand over tables with quoting-sensitive cells, all flag combinations, target columns, headers and separators; when a call raises the file must be byte-identical.",
+        "The scalar methods are the oracle (pinned by C01-C08); input files are well-formed CSV written with newline=''.",
+    ),
+    "C17": (
+        "Hypothesis differential test: in-process Flask test client vs. Starlette TestClient vs. reference model of expand, over generated converters and request paths",
+        "Generated-input exploration of GET /<prefix><delimiter><identifier> on both frameworks with identifiers containing '/' and the delimiter, synonym / unknown / case-varied prefixes, delimiters ':' and '/': status and Location must equal the model and each other.",
+        "In-process test clients; characters restricted to those neither framework percent-encodes.",
+    ),
+    "C18": (
+        "Hypothesis property tests: SPARQL result sets vs. reference model over query shapes; Flask GET/POST and FastAPI GET with independent JSON/XML/CSV readers; Accept negotiation vs. an RFC 7231 oracle",
+        "Generated-input exploration at graph level (VALUES inside/after WHERE, both binding directions, configured / other predicates, invalid-IRI synonyms), at HTTP level (three transports, negotiated content type) and of handle_header over grammar-generated Accept headers with q-values and optional whitespace.",
+        "FastAPI POST is not exercised (python-multipart absent; import shim only allows building the app). rdflib's SPARQL engine is trusted.",
+    ),
+    "C19": (
+        "Hypothesis property test: discover vs. a 15-line re-implementation of the documented algorithm plus metamorphic relations (order/repetition invariance, converter filtering = pre-filtering, learned URIs round-trip)",
+        "Generated-input exploration over URI multisets from a stem x delimiter x tail lattice (nested discovered prefixes common), delimiter lists, cutoffs, metaprefixes, optional pre-existing converter. One open known finding (hard-coded GitHub-issues skip) is excluded by construction, probed on every run and its neighbourhood is generated.",
+        "Trusts the model; 'cutoff' means at least cutoff identifiers, as the statement says.",
+    ),
+    "C20": (
+        "Bounded exhaustive enumeration (all strings up to length 6 / 7 over one representative per character class, 16 processes) plus Hypothesis random longer strings, both against a regex-free transcription of the grammar",
+        "Complete for the stated alphabet up to the length bound (8.1 M strings quick, 113.5 M thorough); exploration beyond it. Both validators are compared with a hand-written predicate on every string.",
+        "Representatives stand for their character classes; the random arm samples other members (other whitespace, digits, letters, Unicode).",
+    ),
 }
 
 checks, na = [], []
